@@ -70,7 +70,18 @@ def _case(draw):
         if draw(st.integers(0, 4)) == 0:
             w["names"] = sorted(set(w["names"]) | {3})     # also watches the Event parameter
     prog = draw(st.lists(_tree(fam), min_size=1, max_size=5))
-    return {"fam": fam, "watchers": ws, "prog": prog}
+    links = None
+    if draw(st.integers(0, 2)) == 0:
+        # a second, small scenario for "update(...) as a context manager restores the previous values AND links"
+        links = {
+            "linked": draw(st.lists(st.booleans(), min_size=2, max_size=2)),
+            "late": draw(st.booleans()),
+            "form": draw(st.sampled_from(["kw", "map", "mapkw", "kwmap"])),
+            "keys": [list(k) for k in draw(st.lists(st.tuples(st.integers(0, 2), st.integers(1, 9)), min_size=1, max_size=3,
+                                                     unique_by=lambda k: k[0]))],
+            "bump_inside": draw(st.booleans()),
+        }
+    return {"fam": fam, "watchers": ws, "prog": prog, "links": links}
 
 
 def strategy(tier):
@@ -378,6 +389,8 @@ def execute(case):
         if p._BATCH_WATCH or p._events or p._state_watchers or p._TRIGGER:
             res.fail("C04.state_left", f"t{t}: dispatch state not clean after the program: batch={p._BATCH_WATCH} "
                                        f"events={p._events!r} trigger={p._TRIGGER}")
+    if case.get("links"):
+        _links_scenario(res, case["links"])
     for l in model.labels:
         res.label(l)
     res.nontrivial = bool(model.labels & {"nested_context", "trigger_inside_batch", "discard_inside_batch",
@@ -394,3 +407,54 @@ def _region_trigger_in_batch(case, v):
 
 
 REGIONS = {"trigger_inside_open_batch": _region_trigger_in_batch}
+
+
+def _links_scenario(res, lk):
+    """`with t.param.update(...)` over linked parameters: on exit the previous values and links are back."""
+    import param
+    S = type("S", (param.Parameterized,), {"v": param.Number(1), "w": param.Number(2)})
+    T = type("T", (param.Parameterized,), {"r1": param.Number(0, allow_refs=True), "r2": param.Number(0, allow_refs=True),
+                                           "p": param.Number(0)})
+    s = S()
+    srcs = {"r1": (s.param.v, "v"), "r2": (s.param.w, "w")}
+    kw = {n: srcs[n][0] for n, on in zip(("r1", "r2"), lk["linked"]) if on}
+    if lk["late"]:
+        t = T()
+        for n, ref in kw.items():
+            setattr(t, n, ref)
+    else:
+        t = T(**kw)
+    names = ["r1", "r2", "p"]
+    upd = {names[i]: 100 + v for i, v in lk["keys"]}
+    before = {n: getattr(t, n) for n in names}
+    items = list(upd.items())
+    if lk["form"] == "kw" or len(items) < 2 and lk["form"] in ("mapkw", "kwmap"):
+        cm = t.param.update(**upd)
+    elif lk["form"] == "map":
+        cm = t.param.update(upd)
+    elif lk["form"] == "mapkw":
+        cm = t.param.update(dict(items[:1]), **dict(items[1:]))
+    else:
+        cm = t.param.update(dict(items[1:]), **dict(items[:1]))
+    res.label(f"links:{lk['form']}")
+    with cm:
+        for n, v in upd.items():
+            if getattr(t, n) != v:
+                res.fail("C04.update_context_value", f"inside `with update(...)` {n} is {getattr(t, n)!r}, expected {v!r}")
+        if lk["bump_inside"]:
+            s.v += 10
+    for n in names:
+        if n in upd and not (lk["bump_inside"] and n == "r1" and n in kw):
+            if getattr(t, n) != before[n]:
+                res.fail("C04.update_context_restore", f"after `with update({lk['form']}: {upd})` {n} is {getattr(t, n)!r}, "
+                                                       f"was {before[n]!r} before entry")
+    # links are back: every linked parameter follows its source again, unlinked ones do not move
+    s.param.update(v=s.v + 1, w=s.w + 1)
+    for n in ("r1", "r2"):
+        src = getattr(s, srcs[n][1])
+        if n in kw:
+            if getattr(t, n) != src:
+                res.fail("C04.update_context_links", f"after `with update({lk['form']}: {upd})` the link of {n} is gone: "
+                                                     f"{n}={getattr(t, n)!r}, source={src!r}")
+        elif n in upd and getattr(t, n) != before[n]:
+            res.fail("C04.update_context_restore", f"unlinked {n} moved after the context: {getattr(t, n)!r}")
